@@ -881,6 +881,13 @@ func vsGenFilter(r *vu.Rng, grpc bool, path string) vsFilter {
 			c := []int{301, 302}[r.Intn(2)]
 			f.Code = &c
 		}
+		if r.Chance(1, 3) {
+			if r.Bool() {
+				f.Path = &vsPathMod{Full: true, Val: "/moved"}
+			} else {
+				f.Path = &vsPathMod{Full: false, Val: []string{"/new", "/", "/new/"}[r.Intn(3)]}
+			}
+		}
 		return f
 	case k < 5:
 		f := vsFilter{Kind: "rewrite"}
